@@ -297,8 +297,8 @@ type cSession struct {
 	tags     map[string]bool
 	skip     string
 	nscratch int
-	stop     bool                  // a resolved entity turned out to be locked for ever: the session ends there
-	staged   [2]map[entity.Id]bool // bugs on which this harness left an operation uncommitted (histogram only, the verdict never reads it)
+	stop     bool                       // a resolved entity turned out to be locked for ever: the session ends there
+	staged   [2]map[entity.Id]bool      // bugs on which this harness left an operation uncommitted (histogram only, the verdict never reads it)
 	held     [2][2]*cache.IdentityCache // held[r][k]: the IdentityCache of user k's identity that user r got earlier (idhold) and still holds
 	nforeign int                        // foreign names used so far
 }
